@@ -7,10 +7,11 @@ agrees with pre_match, and template[sigma] evaluates like the target at random
 integer points under hash-based uninterpreted function tables (independent
 evaluator, own substitution).  Completeness is not claimed and not checked."""
 import random
+from fractions import Fraction
 import warnings
 
 from vf.runner import CaseTimeout, case_alarm
-from vf.sexpr import Env, UFuncs, Undefined, ev, from_pym, size, srcable, to_pym, to_src, variables
+from vf.sexpr import values_equal, Env, UFuncs, Undefined, ev, from_pym, size, srcable, to_pym, to_src, variables
 
 ID = "C17"
 LEVEL = "exploration"
@@ -50,6 +51,8 @@ def gen_term(rng, depth, vars_=VARS, const_p=0.2):
     r = rng.random()
     if depth <= 0 or r < 0.3:
         if rng.random() < const_p:
+            if rng.random() < 0.25:
+                return ["num", rng.choice([2.5, 1000000.5, 0.1, 1e-10, 1e-12])]      # (floats: compared exactly)
             return ["num", rng.choice([0, 1, 1, 2, 3, 4])]
         return ["var", rng.choice(vars_)]
     if r < 0.55:
@@ -159,6 +162,9 @@ def shuffle_ac(rng, e):
 def perturb(rng, e):
     """Change one spot."""
     k = e[0]
+    if k == "num" and isinstance(e[1], float):
+        # another number that is CLOSE to the constant (1e-5 relatively, or both tiny)
+        return ["num", rng.choice([e[1] * (1 + 4e-6), e[1] + 1.0, e[1] * 3, e[1] * (1 - 2e-6)])]
     if k == "num":
         return ["num", e[1] + rng.choice([1, 2])]
     if k == "var":
@@ -363,14 +369,19 @@ def judge(template, expression, free_names, bound_names, pre_match, result, rec)
         prng = random.Random(f"pt{pt}:{names}")
         store = {n: prng.randint(-7, 9) for n in names}
         for salt in (11, 23):
-            env = Env(store, UFuncs(salt))
+            # exact rational arithmetic: the float constants are the rationals they denote, and two ways of
+            # associating a product or sum give the same value
+            env = Env({n: Fraction(v) for n, v in store.items()}, UFuncs(salt), numconv=Fraction)
             try:
                 v1 = ev(inst, env)
                 v2 = ev(e, env)
             except Undefined as u:
                 return ("unevaluable", f"cannot evaluate instantiated template: {u}")
             rec.count("match_points_evaluated")
-            if v1 != v2:
+            # (integers compare exactly; with float constants the two sides may associate products differently)
+            same = (v1 == v2) if isinstance(v1, (int, Fraction)) and isinstance(v2, (int, Fraction)) \
+                else values_equal(v1, v2, rtol=1e-9)
+            if not same:
                 return ("wrong-substitution",
                         f"template[sigma] = {v1} but target = {v2} at {store} (salt {salt}); sigma={sigma}")
             for n, pv in pre.items():
